@@ -17,13 +17,15 @@ ASM_SRC = {
     "accepted": ["LDAC 0\nLDBM 1\nSTAI 2\nLDAC 0\nOPR SVC\n", "BR s\nDATA 199997\ns\nLDAC 0\nLDBM 1\nSTAI 2\nLDAC 0\nOPR SVC\nd\nDATA 7\n",
                  "LDAC 0\nLDBM 1\nSTAI 2\nLDAC 0\nOPR SVC\nDATA 99999999999999999999\nDATA 18446744073709551616\n"],
     "lexical": ["LDAC 0\nLDAC $\n", "LDAC 1 %\n"],     # (hexasm's lexer has no errors of its own: these are rejected by the parser)
-    "syntax": ["LDAC 0\nOPR LDAC\n", "LDAC 0\nDATA\n", "LDAC -\n", "LDAC 0\nOPR 3\n", "LDAC\n", "DATA 1 2\n"],
-    "semantic": ["LDAC 0\nBR nowhere\n", "LDAC 0\nlab\nLDAC 1\nLDAM lab\n", "LDAC 0\nLDAC 1\nLDAC 2\nx\nLDAC 1\nSTAM x\n"],
+    "syntax": ["LDAC 0\nOPR LDAC\n", "LDAC 0\nDATA\n", "LDAC -\n", "LDAC 0\nOPR 3\n", "LDAC\n", "DATA 1 2\n", "LDAC 0\n" + "OPR 9\n" * 256],
+    "semantic": ["LDAC 0\nBR nowhere\n", "LDAC 0\nlab\nLDAC 1\nLDAM lab\n", "LDAC 0\nLDAC 1\nLDAC 2\nx\nLDAC 1\nSTAM x\n",
+                 # exactly 256 and 512 faults of one kind (a status that counts them would wrap to 0)
+                 "LDAC 0\n" + "".join("BR u%d\n" % i for i in range(256)), "LDAC 0\n" + "".join("LDAM v%d\n" % i for i in range(512))],
 }
 X_ERR = {
     "lexical": ["proc main() is $\n", "proc main() is 0('ab')\n", "proc main() is x := \"abc\n"],
     "syntax": ["proc main() is if 1 then skip\n", "proc main() is { skip; }\n", "var x proc main() is skip\n", "proc main( is skip\n"],
-    "semantic": ["proc main() is x := 1\n", "var x;\nvar x;\nproc main() is skip\n", "var n;\narray a[n];\nproc main() is skip\n",
+    "semantic": ["proc main() is { " + "".join("u%d := 1; " % i for i in range(256)) + "skip }\n", "proc main() is x := 1\n", "var x;\nvar x;\nproc main() is skip\n", "var n;\narray a[n];\nproc main() is skip\n",
                  "proc main() is 7(1)\n", "var g;\nval v = g;\nproc main() is 0(v)\n", "proc main() is f(1)\n"],
 }
 
@@ -31,6 +33,8 @@ X_ERR = {
 def x_src(v, via="const"):
     if via == "read":
         return "proc main() is 0(2(0))\n"
+    if via == "fileread":
+        return "var n;\nvar c;\nproc main() is { n := 0; c := 2(256); while c ~= 255 do { n := n + 1; c := 2(256) }; 0(n) }\n"
     if via == "class":
         return "var c;\nproc main() is { c := 2(0); if c < 0 then 0(9) else if c < 128 then 0(1) else if c = 255 then 0(3) else 0(2) }\n"
     return "proc main() is 0(%s)\n" % (str(v) if v >= 0 else "-%d" % (-v))
@@ -88,6 +92,8 @@ def run_shape(tdir, work, inv, k, rep=0):
         vlib.sh([os.path.join(tdir, comp), srcname], cwd=rd, timeout=60)
         rb = os.path.join(rd, "a.out")
         ref = open(rb, "rb").read() if os.path.exists(rb) else None
+    if inv.get("via") == "fileread" and inv["xv"] > 0:
+        open(os.path.join(d, "simin1"), "wb").write(bytes((65 + i) % 250 for i in range(inv["xv"])))
     if inv["pre"] == "present" and target:
         open(os.path.join(d, target), "wb").write(b"PRE-EXISTING SENTINEL\n")
     fifo = None
